@@ -3,7 +3,6 @@ package plat
 import (
 	"fmt"
 	"math/rand"
-	"os"
 	"reflect"
 	"sort"
 	"strings"
@@ -31,7 +30,7 @@ func init() { Registry["C02"] = C02 }
 func C02Meta() harness.Meta {
 	return harness.Meta{
 		Rule: "each run = one seeded (program, inputs, timing platform, event order): the same race-free program with the same inputs is executed twice in one process, on an emulation platform and on a timing platform (mini R9 Nano with drawn shader arrays 1-4, CUs 1-4, L2 64 KiB-1 MiB, 1-16 DRAM banks; the shipped R9 Nano; for cdna3 binaries a mini or the shipped MI300A), same-time events of the timing run permuted in 2 of 3 runs. " +
-			"Programs: generated (kasm) - drawn ALU mixes with data-dependent divergence (v_cmp / s_and_saveexec / s_cbranch_execz), 16-byte records at cache-line-unaligned addresses read with dword, x2, x4, unsigned/signed byte and unsigned short loads at drawn offsets and written with dword, x2 or x4 stores, scalar loads of 2 and 4 dwords, wait counts; LDS exchange through barriers; the id probe in V2/V3 and V5 conventions - and the shipped race-free benchmarks (table flag RaceFree) at small sizes in both architectures. " +
+			"Programs: generated (kasm) - drawn ALU mixes with data-dependent divergence (v_cmp / s_and_saveexec / s_cbranch_execz), 16-byte records at cache-line-unaligned addresses read with dword, x2, x4, unsigned/signed byte and unsigned short loads at drawn offsets and written with dword, x2 or x4 stores, scalar loads of 1, 2 and 4 dwords before and after the stores, a reload of the work-item's own stored record, wait counts; LDS exchange through barriers; the id probe in V2/V3 and V5 conventions - and the shipped race-free benchmarks (table flag RaceFree) at small sizes in both architectures. " +
 			"Observations: every live device buffer of every context after the run (Context.VerifBuffers hook + MemCopyD2H), and per wavefront (keyed by kernel ordinal, work-group id, first work-item) the sequence of executed instructions (emulator instruction hook; timing-CU 'inst' tracing tasks). Oracle: all buffers byte-identical, every wavefront present in both modes with the identical instruction sequence (hence equal retired instruction counts). " +
 			"non-trivial = the timing run reordered at least one tie or used a non-default platform shape; distinct = distinct (configuration digest, event-order digest of the timing run)",
 		RealComponents: []string{"emu.ComputeUnit + ALUs", "timing cu.ComputeUnit (scheduler, coalescer, units, register files), wavefront", "timing memory hierarchy: L1/L2 caches, TLBs, address translators, ROBs, DRAM / banked memory, MMU, RDMA, command processor, DMA", "amd/driver (both copy paths: direct storage in emulation, DMA in timing)", "shipped race-free benchmarks and their kernels"},
@@ -41,7 +40,7 @@ func C02Meta() harness.Meta {
 			"instruction identity is the printed instruction (mnemonic and operands); the program counter is not compared directly",
 		},
 		FaultKinds:     []string{"tie_reorder", "config_swarm"},
-		ExpectedProbes: []string{"generated_alu_program", "barrier_program", "id_probe", "shipped_benchmark", "cdna3_on_mi300a", "divergent_region", "mini_platform", "shipped_platform", "register_scoreboard_on", "register_scoreboard_off", "subdword_load", "wide_load_store"},
+		ExpectedProbes: []string{"generated_alu_program", "barrier_program", "id_probe", "shipped_benchmark", "cdna3_on_mi300a", "divergent_region", "mini_platform", "shipped_platform", "register_scoreboard_on", "register_scoreboard_off", "subdword_load", "wide_load_store", "scalar_load_after_store", "reload_of_own_store"},
 		PerRunTimeoutS: 600,
 		ShrinkBudget:   24,
 	}
@@ -182,10 +181,6 @@ func C02(t *testing.T, ch *choice.Source, opt harness.Options, env *Env) harness
 		probes["mini_platform"] = 1
 	} else {
 		probes["shipped_platform"] = 1
-	}
-	if f := os.Getenv("VERIF_DEBUG_C02"); f != "" && c.Timing.Mini != nil {
-		// diagnosis aid only (never set by registered commands): override the drawn platform shape
-		fmt.Sscanf(f, "%d,%d,%t", &c.Timing.Mini.NumSA, &c.Timing.Mini.NumCUPerSA, &c.Timing.Permute)
 	}
 	c.WG = 64 * (1 + ch.Intn(4, "wgwf"))
 	c.NWG = 1 + ch.Intn(12, "nwg")
@@ -338,16 +333,6 @@ func C02(t *testing.T, ch *choice.Source, opt harness.Options, env *Env) harness
 	em := runMode(emuSpec, "emu")
 	tm := runMode(c.Timing, "timing")
 
-	if os.Getenv("VERIF_DEBUG_C02") != "" && tm.stale != nil {
-		nf, nw := 0, 0
-		for _, f := range tm.stale.fetch {
-			nf += len(f)
-		}
-		for _, w := range tm.stale.writes {
-			nw += len(w)
-		}
-		fdbg, _ := os.OpenFile("/tmp/stalemon.log", os.O_APPEND|os.O_CREATE|os.O_WRONLY, 0644); fmt.Fprintf(fdbg, "STALEMON caches=%d fetched=%d writes=%d kernel=%d seq=%d stale=%d\n", len(tm.stale.fetch), nf, nw, tm.stale.kernel, tm.stale.seq, tm.stale.StaleHits)
-	}
 	miniDesc := ""
 	if c.Timing.Mini != nil {
 		miniDesc = fmt.Sprintf("%+v", *c.Timing.Mini)
@@ -373,6 +358,12 @@ func C02(t *testing.T, ch *choice.Source, opt harness.Options, env *Env) harness
 		}
 		if strings.Contains(l, "flat_load_ubyte") || strings.Contains(l, "flat_load_sbyte") || strings.Contains(l, "flat_load_ushort") {
 			probes["subdword_load"] = 1
+		}
+		if strings.Contains(l, "s_load_dword s28") {
+			probes["scalar_load_after_store"] = 1
+		}
+		if strings.Contains(l, "flat_load_dword v20") {
+			probes["reload_of_own_store"] = 1
 		}
 		if strings.Contains(l, "dwordx2") || strings.Contains(l, "dwordx4") {
 			probes["wide_load_store"] = 1
